@@ -13,6 +13,7 @@ RULE = ("per configuration (interp in {linear, linear_real_only}, window 1-4, se
         "ts_start - d - m/rate (m-th older entry, uniform spacing), bracketing bounds, coincidence with the zero-order-hold result at "
         "message times, and autodiff vs signal slope incl. delays exactly at min and max; one evaluation = one (config, ts_start, d) call; "
         "non-trivial = call whose bracketing messages are both real and differ in value; distinct by config digest x ts_start x d")
+RULE += ' Built later: receive stamps as the runtime provides them (ts_sent + min); a non-finite reading in a buffered message that is not a neighbour of any evaluation point (uniform spacing) must not leak; linear_real_only entries anchored to a dummy slot show the default output.'
 MIN_NONTRIVIAL = {"quick": 400, "thorough": 10000}
 DECIDING = ["newest_checked", "older_checked", "gradients_checked"]
 ASSUMPTIONS = ["tolerance 1e-4 x signal range + slope x 1e-6 (float32 times)", "integer payloads: within 1 of the real-valued result (the code truncates)",
